@@ -457,14 +457,28 @@ class CallsMixin:
                 return self.call_func(fobj, args, kw, env, node)
             return self.call_func(fobj, [recv] + args, kw, env, node)
         if k == "gamma":
-            sides = []
+            # a gated callee (a handler picked from a table): each alternative is called under its gate, and what the
+            # calls do to the heap is joined under the same gate
+            from .interp_stmt import join_envs
+            sides, subs = [], []
             for side, cond in ((f.a[1], f.a[0]), (f.a[2], un("not", f.a[0]))):
-                if side.k == "const":
-                    sides.append(NONE)
-                    continue
                 sub = env.clone()
                 sub.add_fact(cond)
+                if side.k == "const" or sub.dead:
+                    sides.append(NONE)
+                    subs.append(sub)
+                    continue
                 sides.append(self.call(side, args, kw, sub, node, fn))
+                subs.append(sub)
+            live = [(s_, c_) for s_, c_ in zip(subs, (f.a[0], un("not", f.a[0]))) if not s_.dead]
+            if not live:
+                env.dead = True
+                return NONE
+            if len(live) == 1:
+                env.heap = live[0][0].heap
+                return sides[0] if live[0][0] is subs[0] else sides[1]
+            j = join_envs([subs[0], subs[1]], [f.a[0], un("not", f.a[0])])
+            env.heap = j.heap
             return gamma(f.a[0], sides[0], sides[1])
         if k == "bound?":
             return self.call_method_untyped(f.a[0], f.a[1], args, kw, env, node)
@@ -523,9 +537,16 @@ class CallsMixin:
             return T("call", "isdigit", (recv,), ty="bool")
         if name == "get" and recv.k == "dictlit":
             for k_, v_ in recv.a[0]:
-                if k_ == args[0]:
-                    return v_
-            return args[1] if len(args) > 1 else NONE
+                if k_ == args[0] or (k_.k == "const" and args[0].k == "const" and k_.a[0] == args[0].a[0] and type(k_.a[0]) is type(args[0].a[0])):
+                    return v_       # constant keys compare by value (an IntEnum member equals its integer)
+            dflt = args[1] if len(args) > 1 else NONE
+            if args[0].k != "const" and recv.a[0] and all(k_.k == "const" for k_, _v in recv.a[0]) and len(recv.a[0]) <= 32:
+                # a symbolic key against constant keys: the entry whose key it equals, else the default
+                out_ = dflt
+                for k_, v_ in reversed(recv.a[0]):
+                    out_ = gamma(binop("==", args[0], C(k_.a[0])), v_, out_)
+                return out_
+            return dflt
         if name == "index" and recv.k in ("tuple", "list") and len(args) == 1 and args[0].k == "const" and all(x_.k == "const" for x_ in recv.a[0]):
             vals_ = [x_.a[0] for x_ in recv.a[0]]
             if args[0].a[0] in vals_:
